@@ -23,4 +23,15 @@ PROPS = {
                         "deadlock freedom itself is the classical argument from strict rank order + balance; that composition step is on paper"],
         "explanation": "generated lock-discipline units (engine E2), see DESIGN.md §4 and §5 C11",
     },
+    "C10": {
+        "claimed": True, "engine": "cbmc-contracts", "level": "proof",
+        "technique": "contract-based deductive verification (CBMC/DFCC): lock-protection contracts (requires-held) of every internal accessor checked at every call site",
+        "level_text": "What contracts can decide of this schedule-quantified property is the lockset discipline that makes the sequential reasoning valid under threads: for every function of the library that calls an internal accessor documented 'Shall only be called with <lock> acquired' (or a helper whose precondition is derived from such accessors), CBMC proves for all paths, loop iterations and arguments that the required locks are held at the call. Roots (public API, thread entry points) start with no lock held.",
+        "level_note": "Trusted: CBMC 6.11 + DFCC; ghost lock model; documented lock contracts as extracted from /repo's headers. NOT covered: happens-before races on unguarded volatile flags (bidib_running, bidib_discard_rx, bidib_seq_num_enabled, bidib_lowlevel_debug_mode), schedule exploration, atomicity of multi-step read-modify-write sequences beyond 'the documented lock is held', direct accesses to guarded globals that do not go through an accessor function.",
+        "assumptions": E2_ASSUME + ["init-phase functions (reachable only from bidib_state_init, before any thread is created) are exempt from requires-held obligations; listed per unit"],
+        "trusted_base": COMMON_TB,
+        "not_covered": ["data races on variables without a documented guard", "interleaving semantics / schedule exploration", "torn reads inside a critical section of the wrong mode (read lock used where an update needs exclusion)",
+                        "direct uses of bidib_boards / bidib_trains / bidib_track_state.* that bypass accessor functions"],
+        "explanation": "generated lock-discipline units (engine E2) restricted to the requires-held obligations, see DESIGN.md §5 C10",
+    },
 }
